@@ -83,7 +83,7 @@ def cornerFlags (m : MeshVal α) (k : AttrKey) (p : α → Bool) : List Bool :=
     (if none survives there is no attribute array left). -/
 def FilterSpec (k : AttrKey) (p : α → Bool) (m out : MeshVal α) : Prop :=
   SameFrame m out ∧
-  out.corners = (if (cornerFlags m k p).all (fun b => !b) then []
+  out.corners = (if keepAt (cornerFlags m k p) m.indices = [] then []
                  else m.corners.map fun kc => (kc.1, keepAt (cornerFlags m k p) kc.2))
 instance (k : AttrKey) (p : α → Bool) (m out : MeshVal α) : Decidable (FilterSpec k p m out) := by
   unfold FilterSpec; infer_instance
@@ -91,10 +91,24 @@ instance (k : AttrKey) (p : α → Bool) (m out : MeshVal α) : Decidable (Filte
 /-- CropFloat3Attribute on an identity-indexed point cloud: exactly the points inside survive, in order. -/
 def CropSpec (k : AttrKey) (inside : α → Bool) (m out : MeshVal α) : Prop :=
   out.topology = .point ∧ out.materials = m.materials ∧ out.indices = List.range out.attrLen ∧
-  out.corners = (if (cornerFlags m k inside).all (fun b => !b) then []
+  out.corners = (if keepAt (cornerFlags m k inside) m.indices = [] then []
                  else m.corners.map fun kc => (kc.1, keepAt (cornerFlags m k inside) kc.2))
 instance (k : AttrKey) (inside : α → Bool) (m out : MeshVal α) : Decidable (CropSpec k inside m out) := by
   unfold CropSpec; infer_instance
+
+/-- one flag per corner from one flag per triangle -/
+def triFlags (m : MeshVal α) (keep : Nat → Nat → Nat → Bool) : List Bool :=
+  (triples m.indices).flatMap fun t => List.replicate 3 (keep t.1 t.2.1 t.2.2)
+
+/-- RemoveNullFaces3D: exactly the triangles the predicate keeps survive, in order, with all their
+    corner attributes; when nothing is removed the mesh is returned as it is. -/
+def RemoveNullFacesSpec (keep : Nat → Nat → Nat → Bool) (m out : MeshVal α) : Prop :=
+  SameFrame m out ∧
+  (if (triFlags m keep).all id then out = m
+   else out.corners = (if keepAt (triFlags m keep) m.indices = [] then []
+                       else m.corners.map fun kc => (kc.1, keepAt (triFlags m keep) kc.2)))
+instance (keep : Nat → Nat → Nat → Bool) (m out : MeshVal α) : Decidable (RemoveNullFacesSpec keep m out) := by
+  unfold RemoveNullFacesSpec; infer_instance
 
 end
 end MeshVal
